@@ -47,7 +47,7 @@ SatReal == MaxBackoff + 30 + 100
 CbInc(c) == IF c < CapCB THEN c + 1 ELSE c
 Classify(o) == CASE o = "ok" -> "healthy"
                  [] o \in {"http4xx", "http5xx"} -> "unhealthy"
-                 [] o \in {"refuse", "timeout"} -> "offline"
+                 [] o \in {"refuse", "timeout", "eof"} -> "offline"     \* eof: the peer accepts, reads and hangs up without an answer
 
 \* calculateBackoff / markEndpointUnhealthy: interval for THIS failure and multiplier for the next
 FailInterval(m) == IF m <= 1 THEN Min(ci, MaxBackoff) ELSE Min(ci * m, MaxBackoff)   \* capped from the first failure on
